@@ -269,6 +269,7 @@ type zzRPC struct {
 	cmd       tikvrpc.CmdType
 	req       *tikvrpc.Request
 	applied   bool // the store executed it
+	storeOK   bool // the store executed it successfully (ghost: known to the harness even when the answer was lost)
 	answered  bool // the client saw the store's answer (not a transport error)
 	event     int
 	client    int
@@ -1065,7 +1066,9 @@ func (c *zzClient) SendRequest(ctx context.Context, addr string, req *tikvrpc.Re
 	case tikvrpc.CmdPrewrite:
 		resp = &tikvrpc.Response{Resp: cl.prewrite(req.Prewrite())}
 	case tikvrpc.CmdCommit:
-		resp = &tikvrpc.Response{Resp: cl.commit(req.Commit())}
+		cr := cl.commit(req.Commit())
+		rpc.storeOK = cr.Error == nil && cr.RegionError == nil
+		resp = &tikvrpc.Response{Resp: cr}
 	case tikvrpc.CmdBatchRollback:
 		r := req.BatchRollback()
 		rpc.keys = r.Keys
